@@ -43,7 +43,12 @@ var textSuffix = map[string]string{"": "$", "ascii": `\0`, "braille": "$"}
 // processedText computes the content a text value denotes after terminator
 // (and format()) processing. fonts is used only for format().
 func processedText(t *spec.TextVal, fmtFn func(t *spec.TextVal, lit string) (string, error)) (string, error) {
-	lit := strings.Join(t.Parts, "\n")
+	// a line break written inside the quotes, with the white space that follows it, stands for one blank
+	parts := make([]string, len(t.Parts))
+	for i, p := range t.Parts {
+		parts[i] = newlineRunRe.ReplaceAllString(p, " ")
+	}
+	lit := strings.Join(parts, "\n")
 	if t.Format != nil {
 		if fmtFn == nil {
 			return "", fmt.Errorf("format() not supported by this model instance")
